@@ -9,20 +9,21 @@ CONSTANTS MaxAn, MaxNs, MaxAr, Shard, NShards
 
 VARIABLE v
 
-Shapes == 1..5      \* 1: A a.example.org.  2: NS example.org. -> ns1.example.org.  3: TXT 200 octets
+Shapes == 1..6      \* 1: A a.example.org.  2: NS example.org. -> ns1.example.org.  3: TXT 200 octets
                     \* 4: TXT 250 octets, unrelated owner  5: MX with a long unshared exchange name
+                    \* 6: TXT of 3 x 200 octets under the question's zone: alone it exceeds 512, and its owner compresses
 Sec(mx) == UNION { [1..k -> Shapes] : k \in 0..mx }
 Sel(n) == { [kind |-> "abs", v |-> x, d |-> 0] : x \in {0, 511, 512, 513, 65535} }
           \cup { [kind |-> "prefix", v |-> k, d |-> d] : k \in 0..n, d \in {-1, 0, 1} }    \* compressed length of the first k records + OPT
           \cup { [kind |-> "ulen", v |-> 0, d |-> d] : d \in {-1, 0, 1} }                  \* uncompressed length of the whole reply
 
 \* a unique index per case (mixed radix), so that shards are uniform samples
-Num(q) == IF Len(q) = 0 THEN 0 ELSE IF Len(q) = 1 THEN q[1] ELSE 6 + q[1] + 6 * (q[2] - 1)
+Num(q) == IF Len(q) = 0 THEN 0 ELSE IF Len(q) = 1 THEN q[1] ELSE 7 + q[1] + 7 * (q[2] - 1)
 SelIdx(x) == CASE x.kind = "abs" -> (CASE x.v = 0 -> 0 [] x.v = 511 -> 1 [] x.v = 512 -> 2 [] x.v = 513 -> 3 [] OTHER -> 4)
                [] x.kind = "prefix" -> 5 + 3 * x.v + (x.d + 1)
                [] OTHER -> 40 + (x.d + 1)
 B2N(b) == IF b THEN 1 ELSE 0
-Hash(c) == (Num(c.an) + 43 * (Num(c.ns) + 43 * (Num(c.ar) + 43 * (c.opt + 3 * (c.optpos + 3 * (B2N(c.tc) + 2 * (B2N(c.compress) + 2 * SelIdx(c.sel)))))))) % NShards
+Hash(c) == (Num(c.an) + 57 * (Num(c.ns) + 57 * (Num(c.ar) + 57 * (c.opt + 3 * (c.optpos + 3 * (B2N(c.tc) + 2 * (B2N(c.compress) + 2 * SelIdx(c.sel)))))))) % NShards
 
 Init == \E an \in Sec(MaxAn), ns \in Sec(MaxNs), ar \in Sec(MaxAr), opt \in 0..2, tc \in BOOLEAN, comp \in BOOLEAN :
           \E optpos \in 0..(IF opt = 0 THEN 0 ELSE Len(ar)), sel \in Sel(Len(an) + Len(ns) + Len(ar)) :
